@@ -300,4 +300,162 @@ theorem C15_max_same_float (R1 R2 : ArithTy) (m1 m2 : Mag) (a b : Rat) :
 theorem C15_plan_sound (R N : ArithTy) (m : Mag) (x : Val) : convert R N m x = (planConvert R N m).run x :=
   convert_eq_plan R N m x
 
+/-! ### min / max / clamp across types -/
+
+/-- **C15, max (mixed types) — structure.**  `max(q1, q2)` for different quantity types is
+`std::max(a, b) = (a < b) ? b : a` on the two operands converted to the common unit and common rep,
+whatever the reps. -/
+theorem C15_max_mixed (R1 R2 : ArithTy) (m1 m2 : Mag) (x1 x2 a b : Val)
+    (h1 : toCommon R1 (R1.common R2) m1 x1 = .ok a) (h2 : toCommon R2 (R1.common R2) m2 x2 = .ok b) :
+    maxQ false R1 R2 m1 m2 x1 x2 = .ok (if valLt a b then b else a) := by
+  simp [maxQ, h1, h2]
+
+/-- `min`: `std::min(a, b) = (b < a) ? b : a`. -/
+theorem C15_min_mixed (R1 R2 : ArithTy) (m1 m2 : Mag) (x1 x2 a b : Val)
+    (h1 : toCommon R1 (R1.common R2) m1 x1 = .ok a) (h2 : toCommon R2 (R1.common R2) m2 x2 = .ok b) :
+    minQ false R1 R2 m1 m2 x1 x2 = .ok (if valLt b a then b else a) := by
+  simp [minQ, h1, h2]
+
+/-- **C15, max — integral reps, clean conversions.**  Whenever both operands convert to the common
+unit (integer ratios `n1`, `n2`) and common rep without wrap, overflow or narrowing, `max(q1, q2)`
+is the maximum of the exact values `x1·n1` and `x2·n2` — and it is one of the two converted
+operands. -/
+theorem C15_max_spec (t1 t2 : IntTy) (h1 : t1 ∈ IntTy.all) (h2 : t2 ∈ IntTy.all) (m1 m2 : Mag)
+    (hm1 : m1.isInteger = true) (hm2 : m2.isInteger = true) (x1 x2 : Int)
+    (hf1 : (m1.num : Int) ≤ (IntTy.common t1 t2).hi) (hf2 : (m2.num : Int) ≤ (IntTy.common t1 t2).hi)
+    (hx1 : (IntTy.common t1 t2).inRange x1) (hx2 : (IntTy.common t1 t2).inRange x2)
+    (hv1 : (IntTy.common t1 t2).inRange (x1 * (m1.num : Int))) (hv2 : (IntTy.common t1 t2).inRange (x2 * (m2.num : Int))) :
+    maxQ false (.int t1) (.int t2) m1 m2 (.i x1) (.i x2) = .ok (.i (max (x1 * (m1.num : Int)) (x2 * (m2.num : Int)))) ∧
+      (max (x1 * (m1.num : Int)) (x2 * (m2.num : Int)) = x1 * (m1.num : Int) ∨
+       max (x1 * (m1.num : Int)) (x2 * (m2.num : Int)) = x2 * (m2.num : Int)) := by
+  have hC := common_mem t1 t2 h1 h2
+  have c1 : CleanConv t1 (IntTy.common t1 t2) m1 x1 := ⟨hC, common_absorb_left t1 t2 h1 h2, hm1, hf1, hx1, hv1⟩
+  have c2 : CleanConv t2 (IntTy.common t1 t2) m2 x2 := ⟨hC, common_absorb_right t1 t2 h1 h2, hm2, hf2, hx2, hv2⟩
+  refine ⟨?_, by omega⟩
+  rw [C15_max_mixed (.int t1) (.int t2) m1 m2 _ _ _ _ (toCommon_clean _ _ _ _ c1) (toCommon_clean _ _ _ _ c2)]
+  simp only [valLt]
+  by_cases h : x1 * (m1.num : Int) < x2 * (m2.num : Int)
+  · simp [h]; omega
+  · simp [h]; omega
+
+theorem C15_min_spec (t1 t2 : IntTy) (h1 : t1 ∈ IntTy.all) (h2 : t2 ∈ IntTy.all) (m1 m2 : Mag)
+    (hm1 : m1.isInteger = true) (hm2 : m2.isInteger = true) (x1 x2 : Int)
+    (hf1 : (m1.num : Int) ≤ (IntTy.common t1 t2).hi) (hf2 : (m2.num : Int) ≤ (IntTy.common t1 t2).hi)
+    (hx1 : (IntTy.common t1 t2).inRange x1) (hx2 : (IntTy.common t1 t2).inRange x2)
+    (hv1 : (IntTy.common t1 t2).inRange (x1 * (m1.num : Int))) (hv2 : (IntTy.common t1 t2).inRange (x2 * (m2.num : Int))) :
+    minQ false (.int t1) (.int t2) m1 m2 (.i x1) (.i x2) = .ok (.i (min (x1 * (m1.num : Int)) (x2 * (m2.num : Int)))) ∧
+      (min (x1 * (m1.num : Int)) (x2 * (m2.num : Int)) = x1 * (m1.num : Int) ∨
+       min (x1 * (m1.num : Int)) (x2 * (m2.num : Int)) = x2 * (m2.num : Int)) := by
+  have hC := common_mem t1 t2 h1 h2
+  have c1 : CleanConv t1 (IntTy.common t1 t2) m1 x1 := ⟨hC, common_absorb_left t1 t2 h1 h2, hm1, hf1, hx1, hv1⟩
+  have c2 : CleanConv t2 (IntTy.common t1 t2) m2 x2 := ⟨hC, common_absorb_right t1 t2 h1 h2, hm2, hf2, hx2, hv2⟩
+  refine ⟨?_, by omega⟩
+  rw [C15_min_mixed (.int t1) (.int t2) m1 m2 _ _ _ _ (toCommon_clean _ _ _ _ c1) (toCommon_clean _ _ _ _ c2)]
+  simp only [valLt]
+  by_cases h : x2 * (m2.num : Int) < x1 * (m1.num : Int)
+  · simp [h]; omega
+  · simp [h]; omega
+
+/-- Non-vacuity: `max(feet(int16_t{-7}), inches(int32_t{100}))` in inches/int32: max(−84, 100). -/
+example : maxQ false (.int .i16) (.int .i32) [(.prime 2, 2), (.prime 3, 1)] [] (.i (-7)) (.i 100) = .ok (.i 100) ∧
+    minQ false (.int .i16) (.int .i32) [(.prime 2, 2), (.prime 3, 1)] [] (.i (-7)) (.i 100) = .ok (.i (-84)) := by decide
+
+/-- **C15, max / min — floating reps.**  On the converted (round-to-nearest) operands `a`, `b` the
+result is `(a < b) ? b : a` resp. `(b < a) ? b : a`; in particular a NaN first operand is returned,
+and a NaN second operand is ignored — exactly `std::max` / `std::min`. -/
+theorem C15_max_float (R1 R2 : ArithTy) (m1 m2 : Mag) (x1 x2 : Val) (a b : FVal)
+    (h1 : toCommon R1 (R1.common R2) m1 x1 = .ok (.f a)) (h2 : toCommon R2 (R1.common R2) m2 x2 = .ok (.f b)) :
+    maxQ false R1 R2 m1 m2 x1 x2 = .ok (.f (if FVal.lt a b then b else a)) ∧
+    minQ false R1 R2 m1 m2 x1 x2 = .ok (.f (if FVal.lt b a then b else a)) := by
+  rw [C15_max_mixed R1 R2 m1 m2 x1 x2 _ _ h1 h2, C15_min_mixed R1 R2 m1 m2 x1 x2 _ _ h1 h2]
+  simp only [valLt]
+  constructor
+  · by_cases h : FVal.lt a b = true <;> simp [h]
+  · by_cases h : FVal.lt b a = true <;> simp [h]
+
+theorem C15_max_float_nan (R1 R2 : ArithTy) (m1 m2 : Mag) (x1 x2 : Val) (b : FVal)
+    (h1 : toCommon R1 (R1.common R2) m1 x1 = .ok (.f .nan)) (h2 : toCommon R2 (R1.common R2) m2 x2 = .ok (.f b)) :
+    maxQ false R1 R2 m1 m2 x1 x2 = .ok (.f .nan) ∧ minQ false R1 R2 m1 m2 x1 x2 = .ok (.f .nan) := by
+  have := C15_max_float R1 R2 m1 m2 x1 x2 .nan b h1 h2
+  cases b <;> simpa [FVal.lt] using this
+
+theorem C15_max_float_nan_second (R1 R2 : ArithTy) (m1 m2 : Mag) (x1 x2 : Val) (a : FVal)
+    (h1 : toCommon R1 (R1.common R2) m1 x1 = .ok (.f a)) (h2 : toCommon R2 (R1.common R2) m2 x2 = .ok (.f .nan)) :
+    maxQ false R1 R2 m1 m2 x1 x2 = .ok (.f a) ∧ minQ false R1 R2 m1 m2 x1 x2 = .ok (.f a) := by
+  have := C15_max_float R1 R2 m1 m2 x1 x2 a .nan h1 h2
+  cases a <;> simpa [FVal.lt] using this
+
+/-- The identical-type `Quantity` overloads are the hidden friends: `max(a, b) = b < a ? a : b`,
+`min(a, b) = b < a ? b : a` on the stored values. -/
+theorem C15_max_same_rule (R1 R2 : ArithTy) (m1 m2 : Mag) (x1 x2 : Val) :
+    maxQ true R1 R2 m1 m2 x1 x2 = .ok (if valLt x2 x1 then x1 else x2) ∧
+    minQ true R1 R2 m1 m2 x1 x2 = .ok (if valLt x2 x1 then x2 else x1) := by
+  simp [maxQ, minQ]
+
+/-- **Finding F27, kernel-checked.**  For identical `Quantity` types `max(meters(NaN), meters(1.0))`
+is `1 m` (the hidden friend returns its second argument when the comparison is false), whereas the
+mixed-type path — `std::max` — returns its first argument, NaN. -/
+theorem C15_max_same_type_nan :
+    maxQ true (.flt .f64) (.flt .f64) [] [] (.f .nan) (.f (.fin 1)) = .ok (.f (.fin 1)) ∧
+    maxQ false (.flt .f64) (.flt .f64) [] [] (.f .nan) (.f (.fin 1)) = .ok (.f .nan) := by
+  decide +kernel
+
+theorem scale_lt (k : Nat) (hk : 0 < k) (x y : Int) (a b : Nat) (p q : Nat) (hp : p = k * a) (hq : q = k * b) :
+    (x * (a : Int) < y * (b : Int)) ↔ (x * (p : Int) < y * (q : Int)) := by
+  subst hp; subst hq
+  have hk' : (0 : Int) < (k : Int) := by omega
+  have e1 : x * ((k * a : Nat) : Int) = (k : Int) * (x * (a : Int)) := by
+    rw [Int.natCast_mul, Int.mul_left_comm]
+  have e2 : y * ((k * b : Nat) : Int) = (k : Int) * (y * (b : Int)) := by
+    rw [Int.natCast_mul, Int.mul_left_comm]
+  rw [e1, e2]
+  exact (Int.mul_lt_mul_left hk').symm
+
+/-- **C15, clamp — integral reps, mixed types, clean conversions.**  `clamp(v, lo, hi)` compares
+`v < lo` and `hi < v` in the common unit/rep of each *pair* and converts the selected operand to
+the common unit/rep of all three.  When all seven conversions are clean and the three units are
+consistent (the result unit divides both pair units: factors `k1`, `k2`), the result is
+`min(max(V, L), H)` on the exact values in the result unit (`lo ≤ hi`), and it is one of `V, L, H`. -/
+theorem C15_clamp_spec (tv tl th : IntTy) (ms : ClampMags) (v lo hi : Int)
+    (c1 : CleanConv tv (IntTy.common tv tl) ms.vToVLo v) (c2 : CleanConv tl (IntTy.common tv tl) ms.loToVLo lo)
+    (c3 : CleanConv th (IntTy.common th tv) ms.hiToHiV hi) (c4 : CleanConv tv (IntTy.common th tv) ms.vToHiV v)
+    (c5 : CleanConv tv (IntTy.common (IntTy.common tv tl) th) ms.vToRes v)
+    (c6 : CleanConv tl (IntTy.common (IntTy.common tv tl) th) ms.loToRes lo)
+    (c7 : CleanConv th (IntTy.common (IntTy.common tv tl) th) ms.hiToRes hi)
+    (k1 k2 : Nat) (hk1 : 0 < k1) (hk2 : 0 < k2)
+    (e1 : ms.vToRes.num = k1 * ms.vToVLo.num) (e2 : ms.loToRes.num = k1 * ms.loToVLo.num)
+    (e3 : ms.hiToRes.num = k2 * ms.hiToHiV.num) (e4 : ms.vToRes.num = k2 * ms.vToHiV.num)
+    (hle : lo * (ms.loToRes.num : Int) ≤ hi * (ms.hiToRes.num : Int)) :
+    clampQ false false (.int tv) (.int tl) (.int th) ms (.i v) (.i lo) (.i hi) =
+        .ok (.i (min (max (v * (ms.vToRes.num : Int)) (lo * (ms.loToRes.num : Int))) (hi * (ms.hiToRes.num : Int)))) ∧
+      (min (max (v * (ms.vToRes.num : Int)) (lo * (ms.loToRes.num : Int))) (hi * (ms.hiToRes.num : Int)) = v * (ms.vToRes.num : Int) ∨
+       min (max (v * (ms.vToRes.num : Int)) (lo * (ms.loToRes.num : Int))) (hi * (ms.hiToRes.num : Int)) = lo * (ms.loToRes.num : Int) ∨
+       min (max (v * (ms.vToRes.num : Int)) (lo * (ms.loToRes.num : Int))) (hi * (ms.hiToRes.num : Int)) = hi * (ms.hiToRes.num : Int)) := by
+  refine ⟨?_, by omega⟩
+  have hlt1 := scale_lt k1 hk1 v lo _ _ _ _ e1 e2
+  have hlt2 := scale_lt k2 hk2 hi v _ _ _ _ e3 e4
+  unfold clampQ lessQ
+  simp only [Bool.false_eq_true, if_false, ArithTy.common, toCommon_clean _ _ _ _ c1, toCommon_clean _ _ _ _ c2,
+    toCommon_clean _ _ _ _ c3, toCommon_clean _ _ _ _ c4, Res.bind_ok, valLt]
+  by_cases hA : v * (ms.vToVLo.num : Int) < lo * (ms.loToVLo.num : Int)
+  · have hA' := hlt1.1 hA
+    simp only [hA, decide_true, if_true, construct_clean _ _ _ _ c6]
+    congr 2; omega
+  · have hA' : ¬ (v * (ms.vToRes.num : Int) < lo * (ms.loToRes.num : Int)) := fun h => hA (hlt1.2 h)
+    simp only [hA, decide_false, Bool.false_eq_true, if_false]
+    by_cases hB : hi * (ms.hiToHiV.num : Int) < v * (ms.vToHiV.num : Int)
+    · have hB' := hlt2.1 hB
+      simp only [hB, decide_true, if_true, construct_clean _ _ _ _ c7]
+      congr 2; omega
+    · have hB' : ¬ (hi * (ms.hiToRes.num : Int) < v * (ms.vToRes.num : Int)) := fun h => hB (hlt2.2 h)
+      simp only [hB, decide_false, Bool.false_eq_true, if_false, construct_clean _ _ _ _ c5]
+      congr 2; omega
+
+/-- Non-vacuity: `clamp(feet(5), inches(100), yards(2))` with `int32_t`: the common unit is inches,
+`V = 60, L = 100, H = 72`… with `lo ≤ hi` violated the code returns `lo`; a proper instance:
+`clamp(feet(10), inches(100), yards(3))`: `V = 120, L = 100, H = 108` → `108`. -/
+example : clampQ false false (.int .i32) (.int .i32) (.int .i32)
+    ⟨[(.prime 2, 2), (.prime 3, 1)], [], [(.prime 3, 1)], [], [(.prime 2, 2), (.prime 3, 1)], [], [(.prime 2, 2), (.prime 3, 2)]⟩
+    (.i 10) (.i 100) (.i 3) = .ok (.i 108) := by decide
+
 end Au
